@@ -235,6 +235,32 @@ def check(prog, ctx):
     # sign, no further apart than xAccuracy, with the returned point between them (intermediate value theorem) - otherwise
     # a continuous function through the same samples has its sign change elsewhere.  The only such pair the routine
     # maintains is the bracket (x1,x2), f1 f2 < 0 (C02.c).
+    import random as _random
+
+    def num_zero(e):
+        """e == 0 as an identity, tested at three fixed pseudo-random points (function applications and symbols get
+        independent values; complex values allowed) - the expressions here are Ridders' formula nested in itself, which
+        symbolic simplification handles in minutes, not seconds."""
+        if not isinstance(e, sp.Basic):
+            return e == 0
+        if e == 0:
+            return True
+        AU_ = sp.core.function.AppliedUndef
+        atoms = sorted(e.atoms(AU_), key=str)
+        syms = sorted(e.free_symbols, key=str)
+        for t_ in range(3):
+            rnd = _random.Random(4711 + t_)
+            val = lambda: sp.Float(rnd.uniform(0.5, 2.0) * (1 if rnd.random() < 0.5 else -1))
+            rep = {a_: val() for a_ in atoms}
+            rep2 = {y_: val() for y_ in syms}
+            try:
+                v = complex(sp.N(e.xreplace(rep).xreplace(rep2)))
+            except (TypeError, ValueError):
+                return False
+            if abs(v) > 1e-9:
+                return False
+        return True
+
     def bracket_of(state):
         return state.env.get(kx1), state.env.get(kx2)
     certified_all = bool(acc_rets)
@@ -243,10 +269,10 @@ def check(prog, ctx):
         tests = [c_ for c_ in flat(o.state.conds[n0:]) if isinstance(c_, (sp.Lt, sp.Le)) and c_.rhs == acc]
         b1, b2 = bracket_of(o.state)
         pairs = [(x1, x2)] + ([(b1, b2)] if isinstance(b1, sp.Basic) and isinstance(b2, sp.Basic) else [])
-        inside = lambda v_, u_, w_: any(is_zero(sp.simplify(v_ - t_)) for t_ in (u_, w_)) or \
-            ({u_, w_} == {x1, x2} and any(is_zero(sp.simplify(v_ - t_)) for t_ in (x3, x4)))
+        inside = lambda v_, u_, w_: any(num_zero(v_ - t_) for t_ in (u_, w_)) or \
+            ({u_, w_} == {x1, x2} and any(num_zero(v_ - t_) for t_ in (x3, x4)))
         cert, succ = None, None
-        same_dist = lambda L_, u_, w_: is_zero(sp.simplify(L_ - sp.Abs(u_ - w_))) or is_zero(sp.simplify(L_ ** 2 - (u_ - w_) ** 2))
+        same_dist = lambda L_, u_, w_: num_zero(L_ - sp.Abs(u_ - w_))
         for c_ in tests:
             d_ = c_.lhs
             for u_, w_ in pairs:
@@ -257,7 +283,7 @@ def check(prog, ctx):
                 if k_ in (kx1, kx2, kf1, kf2) or not d_.has(v_):
                     continue
                 carried = [p_.env.get(k_) for p_ in live]
-                if carried and all(isinstance(t_, sp.Basic) and is_zero(sp.simplify(t_ - x4)) for t_ in carried) and same_dist(d_, x4, v_):
+                if carried and all(isinstance(t_, sp.Basic) and num_zero(t_ - x4) for t_ in carried) and same_dist(d_, x4, v_):
                     succ = str(v_)
         if not cert:
             certified_all = False
